@@ -17,7 +17,8 @@ pub struct Ctx {
     pub tier: Tier,
     pub seed: u64,
     pub threads: usize,
-    pub replay: Option<Json>,
+    /// replay mode: run only this case index
+    pub only_case: Option<u64>,
     pub progress: Option<String>,
 }
 
@@ -150,6 +151,18 @@ pub fn run_cases<F>(ctx: &Ctx, total: u64, f: F) -> Acc
 where
     F: Fn(u64, &mut Acc) + Sync,
 {
+    if let Some(i) = ctx.only_case {
+        let mut acc = Acc::default();
+        acc.cur_case = i;
+        if i < total {
+            if let Err((m, l)) = guarded(|| f(i, &mut acc)) {
+                acc.inconclusive.push(format!("harness panic in case {}: {} at {}", i, m, l));
+            }
+        } else {
+            acc.inconclusive.push(format!("case {} out of range {}", i, total));
+        }
+        return acc;
+    }
     let next = AtomicU64::new(0);
     let chunk: u64 = (total / (ctx.threads as u64 * 64)).clamp(1, 4096);
     let merged = Mutex::new(Acc::default());
